@@ -136,8 +136,20 @@ def Query.matches (q : Query) (t : Task) : Bool :=
   matchOptTime t.deadline q.deadline && matchOptTime t.cancelledAt q.cancelledAt &&
   matchOptTime t.dispatchedAt q.dispatchedAt && matchOptTime t.doneAt q.doneAt
 
+/-- Insert `t` into a list sorted by creation time, before the first element that is not older. -/
+def insCreated (t : Task) : List Task → List Task
+  | [] => [t]
+  | x :: xs => if t.createdAt ≤ x.createdAt then t :: x :: xs else x :: insCreated t xs
+
+/-- "oldest-created first": the stable sort by `created_at` (insertion order breaks ties) that `Find`
+lists its matches in — `ORDER BY created_at` in the SQL repository, `slices.SortStableFunc` over the
+insertion-ordered map in the in-memory one. Under a clock that never steps back it is the identity. -/
+def byCreated : List Task → List Task
+  | [] => []
+  | t :: ts => insCreated t (byCreated ts)
+
 /-- The `Find` loop of the in-memory repository with its `offset--` / `limit--` counters
-(/repo/repository/inmemory/repository.go:196-210), over the tasks in insertion order. -/
+(/repo/repository/inmemory/repository.go, `Find`), over the matching tasks oldest-created first. -/
 def findLoop (pred : Task → Bool) : List Task → Int → Int → List Task
   | [], _, _ => []
   | t :: ts, offset, limit =>
